@@ -44,6 +44,18 @@ CLAIMED = {
         'technique': 'Lean 4 proof (case analysis over the dunder dispatch) + kernel-checked source tables + differential correspondence',
         'design_ref': '§5 C02',
     },
+    'C15': {
+        'text': ('Lean theorems over any commutative ring with c²+s²=1 and over ℝ with c=cos 2a, s=sin 2a: the HWP, rotation, '
+                 'transpose-rotation and polariser kernels are their Mueller matrices on I/QU/IQU/IQUV (absent components are '
+                 'never read), R(a)R(b)=R(a+b) and the three mixed cases, Rᵀ=R(−a), RᵀR=I, R·HWP=HWP·R(−a), P·HWP=P, the '
+                 'factory identities — for all angles, pointwise for angle arrays.  The executable kernels are compared with '
+                 'the implementation sample by sample; operators, rule outputs and factories are compared before and after '
+                 'reduce() with independently built Mueller matrices.'),
+        'note': ('Trusted: Lean kernel + Mathlib real trigonometry + standard axioms; float32 cos/sin/rounding not modelled '
+                 '(A8, tolerance 2e-4 on this channel).'),
+        'technique': 'Lean 4 proof (ring / linear_combination / Real.cos_add) + differential correspondence of the kernels',
+        'design_ref': '§5 C15',
+    },
 }
 
 ALL = [f'C{i:02d}' for i in range(1, 21)]
